@@ -32,6 +32,7 @@ CHECKS = {
     "C04": {
         "groups": [
             {"pkg": "Havoc/pkg/agent", "with": AGENT_WITH, "entries": ["H_c04_dequeue", "H_c04_history", "H_c04_chunks"], "split": True},
+            {"pkg": "Havoc/pkg/agent", "with": AGENT_WITH, "entries": ["H_c04_race"], "race": True},
         ],
         "bounds": "dequeue: queue of 0..4 jobs with 0..2 arguments each, byte arguments of any length up to 2^31 (abstract buffers); history: 1..5 enqueue/check-in operations on two agents; chunks: file size any value in [0, 3*30MB+1].",
         "outside": "concurrent enqueue/check-in (two-thread harness not built in this revision); service Get path",
@@ -68,6 +69,7 @@ CHECKS = {
             {"pkg": "Havoc/pkg/socks", "entries": ["H_c15_request"], "shards": 13},
             {"pkg": "Havoc/pkg/agent", "with": AGENT_WITH, "entries": ["H_c15_proxy"], "shards": 5},
             {"pkg": "Havoc/pkg/agent", "with": AGENT_WITH, "entries": ["H_c15_relay", "H_c15_socks_admin"]},
+            {"pkg": "Havoc/pkg/agent", "with": AGENT_WITH, "entries": ["H_c15_tables_race"], "race": True},
         ],
         "bounds": "greeting: every stream of 0..6 bytes; request: every stream of 0..12 bytes; both under every segmentation into chunks of 1, 2 or all remaining bytes; reply builder: IPv4/IPv6/domain of length 0,1,2,127,128,255; proxy handler: greeting 0..4 bytes then request 0..10 bytes (client waits for the method selection); relay: READ/CLOSE/CONNECT callbacks for an arbitrary socket id against a table of two clients, data 0..3 bytes; operator socks list/kill/clear with 0..3 proxies of 0..2 clients each.",
         "outside": "reader goroutines and their lifetime, real TCP, io.Copy in PortFwdRead, pipelined greeting+request, concurrent table use (two-thread harness not built in this revision)",
